@@ -1,7 +1,7 @@
 PROP = {
     'level': 'proof',
     'coq': ['Properties/C11.v'],
-    'coq_gen': ['Properties/C11_gen.v'],
+    'coq_gen': ['Properties/C11_gen.v', 'Properties/C11_gen_r8.v'],
     'rule': ("four streams from one PRNG. (a) sessions: the real newEncryptedConnection (hook VerifDial; crypto/rand.Reader "
              "replaced by a deterministic reader delivering params|key seed|packet nonces) connects over loopback TCP to a "
              "reference server written from the protocol (std crypto only): the 256 handshake bytes, every byte the client "
